@@ -53,8 +53,12 @@ func (c *checkSchema) checkType(name string, typ ischema.Type, ss map[string]isc
 				// lexemes point into: the error position is already right.
 				panic(jErr)
 			}
-			jErr.SetFile(typ.RootFile)
-			jErr.SetIndex(bytes.Index(jErr.Index()) + typ.Begin)
+			if typ.RootFile == nil || typ.Begin != 0 || jErr.Filename() == "" || jErr.Filename() == typ.RootFile.Name() {
+				jErr.SetFile(typ.RootFile)
+				jErr.SetIndex(bytes.Index(jErr.Index()) + typ.Begin)
+			}
+			// Otherwise the error points into another file already (a property
+			// inherited through allOf keeps the position it has in its own type).
 			jErr.SetIncorrectUserType(name)
 			panic(jErr)
 		}
